@@ -645,7 +645,7 @@ def run_cases(ck, hb, db, cases, label, batch=60, hist=8, text=True):
             sources[c.kid] = {m: s for m, s in d.items() if m != "okl"}
             if " ERR" in body:
                 C["partly_rejected_" + label] = C.get("partly_rejected_" + label, 0) + 1
-        if text and body != flat_model[c.op]:
+        if text and body != flat_model[c.op] and not getattr(c, "text_exempt", False):
             text_fails.append((c, first_seg_diff(body, flat_model[c.op])))
     C["rejected_by_translator_" + label] = C.get("rejected_by_translator_" + label, 0) + nerr
     # ---- execution
